@@ -115,7 +115,11 @@ func (ps *pipeStreams) replayTwin(chunks []int, readBuf int) (a, b *pipeRun) {
 		var conns [2]*ech.Conn
 		runs := [2]*pipeRun{a, b}
 		for i := range conns {
-			sc := simnet.NewScript(ps.c)
+			in := ps.c
+			if i == 1 {
+				in = ps.twinStream(ps.crecs)
+			}
+			sc := simnet.NewScript(in)
 			sc.Chunks = chunks
 			c, err := ech.NewConn(context.Background(), sc, keyOptions(ps.keys)...)
 			if err != nil {
@@ -144,6 +148,24 @@ func (ps *pipeStreams) replayTwin(chunks []int, readBuf int) (a, b *pipeRun) {
 		a.panicMsg, a.panicSite = msg, site
 	}
 	return
+}
+
+// twinStream is the client stream of the second of two interleaved
+// connections: same records, but every byte of the payload of the records that
+// pass unchanged is different, so that bytes leaking from one connection into
+// the other show.
+func (ps *pipeStreams) twinStream(recs [][]byte) []byte {
+	var out []byte
+	for i, r := range recs {
+		c := append([]byte(nil), r...)
+		if !ps.hello[i] && i > 0 {
+			for j := 5; j < len(c); j++ {
+				c[j] ^= 0x5a
+			}
+		}
+		out = append(out, c...)
+	}
+	return out
 }
 
 func (ps *pipeStreams) replayX(chunks []int, readBuf int, cutAt int, cutErr error, wsplit []int, wErrAt int, errWithData bool) *pipeRun {
@@ -402,7 +424,7 @@ func executePipe(t *testing.T, prop string, seed uint64, p *PipePlan) *core.Resu
 					for ti, tr := range []*pipeRun{ta, tb} {
 						if tr.panicMsg != "" {
 							res.Fail(prop, "panic", tr.panicSite+": "+normMsg(tr.panicMsg), "%s (two connections)", what)
-						} else if tr.newConnErr == nil && !bytes.Equal(tr.read, normVer(tr.read, full)) {
+						} else if want := [][]byte{full, ps.twinStream(ps.img)}[ti]; tr.newConnErr == nil && !bytes.Equal(tr.read, normVer(tr.read, want)) {
 							res.Fail(prop, "pipe", "bytes of one connection altered while another connection of the process is being read", "%s: connection %d got %d bytes want %d, first diff %d", what, ti, len(tr.read), len(full), firstDiff(tr.read, normVer(tr.read, full)))
 						}
 					}
